@@ -276,7 +276,7 @@ type c19PlanRec struct {
 // C19 — the App Engine proxy relays each request and its response intact.
 func C19(r *core.Run) {
 	r.Level = "fault_enumeration"
-	r.SetRule("(a) concurrent client handlers + agent pollers (list/fetch/post) in one world with unique tokens: every request size x response size over {1 KiB, 999 999, 1 000 000, 1 000 001, 1 999 999, 2 000 000, 2 000 001, 3.5 MB} (sizes of the serialised messages, hit exactly), POST/PUT/GET, statuses, cacheable and not, requests never answered (504), for a third of the requests the authenticated agent of another registered backend first tries to fetch them and to post a forged response under their IDs (must be rejected, request stays pending, client gets the rightful answer), one exchange with > 11 overflow parts (11 000 001 / 12 345 678 bytes; thorough up to 25 MB); (a2) URL-reuse histories: sequences POST>GET, PUT>GET, DELETE>GET, GET>GET, other-user GETs, uncacheable variants (thorough: 150 random ones) on one URL each, run in order; (a3) re-registration: a backend ID registered again (admin API / store) for another agent account after the old account polled or served an exchange - the old account must be refused on list, fetch and respond and the client must receive the current agent's response; (b) store-level write/read-back of requests and responses at the size boundaries on the persistent store, the caching store and the caching store with memcache failing; (c) fault plans: one exchange per plan in a world of its own, failing the n-th call of each (service, method, entity kind) seen at each endpoint (including the reads of the overflow parts of multi-part payloads at the fetch and client endpoints), datastore write outages (every Put fails) while payloads with 5-11 overflow parts are stored by the client and response-post handlers, a client request nobody answers while every datastore read of its wait for the response fails (504 at 30 s, never a hang), a history (in a process of its own) of a pending-list call whose datastore writes fail followed by further pending-list calls and an admin add and delete that must all return, and every pair of them for the response post; class = (phase, method, request size class, response size class, status, answered, cache-control) for exchanges, (stack, kind, size class) for blobs, (endpoint, failed operations, payload class) for fault plans")
+	r.SetRule("(a) concurrent client handlers + agent pollers (list/fetch/post) in one world with unique tokens: every request size x response size over {1 KiB, 999 999, 1 000 000, 1 000 001, 1 999 999, 2 000 000, 2 000 001, 3.5 MB} (sizes of the serialised messages, hit exactly), POST/PUT/GET, statuses, cacheable and not, requests never answered (504), for a third of the requests the authenticated agent of another registered backend first tries to fetch them and to post a forged response under their IDs (must be rejected, request stays pending, client gets the rightful answer), one exchange with > 11 overflow parts (11 000 001 / 12 345 678 bytes; thorough up to 25 MB); (a2) URL-reuse histories: sequences POST>GET, PUT>GET, DELETE>GET, GET>GET, other-user GETs, uncacheable variants (thorough: 150 random ones) on one URL each, run in order; (a3) re-registration: a backend ID registered again (admin API / store) for another agent account after the old account polled or served an exchange - the old account must be refused on list, fetch and respond and the client must receive the current agent's response; (b) store-level write/read-back of requests and responses at the size boundaries on the persistent store, the caching store and the caching store with memcache failing; (c) fault plans: one exchange per plan in a world of its own, failing the n-th call of each (service, method, entity kind) seen at each endpoint (including the reads of the overflow parts of multi-part payloads at the fetch and client endpoints), datastore write outages (every Put fails) while payloads with 5-11 overflow parts are stored by the client and response-post handlers, a client request nobody answers while every datastore read of its wait for the response fails (504 at 30 s, never a hang), a history (in a process of its own) of a pending-list call whose datastore writes fail followed by further pending-list calls and an admin add and delete that must all return, and every pair of them for the response post; a response post that is refused is sent again once (as agents do), and a post acknowledged with 200 - first or second - must leave the request no longer pending; class = (phase, method, request size class, response size class, status, answered, cache-control) for exchanges, (stack, kind, size class) for blobs, (endpoint, failed operations, payload class) for fault plans")
 	r.Assume("T = 45 s progress bound per handler call (designed waits are 30 s; fault-free calls take < 3 s); a call exceeding it is re-run alone in a fresh process before it is reported; under an injected fault the client may receive a proxy-generated 404/500/504 instead of the response; a client must receive the response posted under its own request ID, except that a GET may be answered with a byte-identical replay of a cacheable response (200, no Cache-Control) delivered earlier to the same user for a GET of the same URL (the documented GET cache); datastore transactions are not isolated by the fake")
 	bin := r.MustBuild(e3Build(r))
 	exs := c19Generate(r)
